@@ -136,6 +136,8 @@ LongInt LocHandleCnt; /* mom. verwendeter lokaler Handle            */
 typedef struct sSymbolEntry {
     TTree      Tree;
     Boolean    Defined, Used, Changeable;
+    Boolean    Patched;    /* value modified via ChangeSymbol() after it was entered */
+    LargeInt   EnteredInt; /* if Patched: the value the symbol was entered with */
     TempResult SymWert;
     PCrossRef  RefList;
     Byte       FileNum;
@@ -2157,6 +2159,15 @@ static Boolean SymbolAdder(PTree* PDest, PTree Neu, void* pData) {
     }
 
     else {
+        /* A label that was moved behind inserted padding (LabelModify() ->
+           ChangeSymbol()) is entered with its unpadded value again in every
+           pass.  The padding only depends on that value, so this is what has
+           to be compared to detect a phase error; comparing against the
+           patched value would demand another pass forever. */
+
+        LargeInt OldInt = (*Node)->Patched ? (*Node)->EnteredInt
+                                           : (*Node)->SymWert.Contents.Int;
+
         if (!EnterStruct->MayChange) {
             /* TODO TempResult */
             if ((NewEntry->SymWert.Typ != (*Node)->SymWert.Typ)
@@ -2168,8 +2179,7 @@ static Boolean SymbolAdder(PTree* PDest, PTree Neu, void* pData) {
                     && (NewEntry->SymWert.Contents.Float
                         != (*Node)->SymWert.Contents.Float))
                 || ((NewEntry->SymWert.Typ == TempInt)
-                    && (NewEntry->SymWert.Contents.Int
-                        != (*Node)->SymWert.Contents.Int))) {
+                    && (NewEntry->SymWert.Contents.Int != OldInt))) {
                 if ((!Repass) && (JmpErrors > 0)) {
                     if (ThrowErrors) {
                         ErrorCount -= JmpErrors;
@@ -2333,6 +2343,10 @@ void PrintSymTree(char* Name) {
  * ------------------------------------------------------------------------ */
 
 void ChangeSymbol(PSymbolEntry pEntry, LargeInt Value) {
+    if (!pEntry->Patched && (pEntry->SymWert.Typ == TempInt)) {
+        pEntry->EnteredInt = pEntry->SymWert.Contents.Int;
+        pEntry->Patched    = True;
+    }
     as_tempres_set_int(&pEntry->SymWert, Value);
 #ifdef ASL_VERIF
     if (AV_ON(AV_SYM)) {
